@@ -89,6 +89,7 @@ CombFails(ev) ==
     \cup (IF Len(ev.res) # Len(want) THEN {"count"}
           ELSE UNION { Pre("item_", Diff(ev.res[q], Wrap(ev.A, want[q]))) : q \in 1..Len(want) })
     \cup (IF ~ev.allParse THEN {"result_does_not_reparse"} ELSE {})
+    \cup (IF ev.again # ev.res THEN {"second_expansion_of_the_same_object_differs"} ELSE {})
 
 (* -------------------------------- C20 ---------------------------------- *)
 ModDictFails(ev) == IF ev.res # Write(ev.A, FALSE) THEN {"add_mods_of_get_mods_differs"} ELSE {}
